@@ -153,7 +153,12 @@ def build(case, Ms=None):
             p.id = f"shared-{i % 2}"
     kw = {}
     if case.get("sel") in ("ranks", "scores"):
-        kw[case["sel"]] = list(case["vals"])
+        if case.get("vals_tags"):
+            from .gen import untag_vals
+
+            kw[case["sel"]] = untag_vals(case["vals"], case["vals_tags"])
+        else:
+            kw[case["sel"]] = list(case["vals"])
     for k, v in (case.get("call") or {}).items():
         kw[k] = v
     return model, teams, kw
